@@ -844,6 +844,10 @@ class AdapterLookupBase:
 
     def _uncached_lookup(self, required, provided, name=''):
         required = tuple(required)
+        # Subscribe before looking: if a required specification changes
+        # while the tables are being walked, we must hear about it (the
+        # caches are dropped, and what is computed here is not cached).
+        self._subscribe(*required)
         result = None
         order = len(required)
         for registry in self._registry.ro:
@@ -865,8 +869,6 @@ class AdapterLookupBase:
             if result is not None:
                 break
 
-        self._subscribe(*required)
-
         return result
 
     def queryMultiAdapter(self, objects, provided, name='', default=None):
@@ -884,6 +886,7 @@ class AdapterLookupBase:
 
     def _uncached_lookupAll(self, required, provided):
         required = tuple(required)
+        self._subscribe(*required)  # first: see _uncached_lookup
         order = len(required)
         result = {}
         for registry in reversed(self._registry.ro):
@@ -900,8 +903,6 @@ class AdapterLookupBase:
                 continue
             _lookupAll(components, required, extendors, result, 0, order)
 
-        self._subscribe(*required)
-
         return tuple(result.items())
 
     def names(self, required, provided):
@@ -909,6 +910,7 @@ class AdapterLookupBase:
 
     def _uncached_subscriptions(self, required, provided):
         required = tuple(required)
+        self._subscribe(*required)  # first: see _uncached_lookup
         order = len(required)
         result = []
         for registry in reversed(self._registry.ro):
@@ -930,8 +932,6 @@ class AdapterLookupBase:
                 continue
             _subscriptions(components, required, extendors, '',
                            result, 0, order)
-
-        self._subscribe(*required)
 
         return result
 
